@@ -181,6 +181,19 @@ impl BuildStates {
             self.counts.add(state, 1);
         }
 
+        #[cfg(n2_verif)]
+        crate::verif::on_set(
+            id,
+            prev,
+            state,
+            self.counts.0,
+            self.total_pending,
+            self.pools
+                .iter()
+                .map(|(n, p)| (n.clone(), p.depth, p.running, p.queued.len()))
+                .collect(),
+        );
+
         /*
         This is too expensive to log on every individual state change...
         trace::if_enabled(|t| {
@@ -358,6 +371,8 @@ impl<'a> Work<'a> {
         progress: &'a dyn Progress,
         pools: SmallMap<String, usize>,
     ) -> Self {
+        #[cfg(n2_verif)]
+        crate::verif::on_work_new(&graph, &last_hashes, &pools);
         let file_state = FileState::new(&graph);
         let build_count = graph.builds.next_id();
         Work {
